@@ -435,9 +435,28 @@ CORPUS = [
 ]
 
 
+def end_after_empty_valued_token(ctx):
+    """the last token before an unexpected end of input has an empty value (a callback stripped it, or it is the Indenter's
+    closing DEDENT): $END must still carry its coordinates"""
+    from lark import Lark
+    g = 'start: A B C\nA: "a"\nB: "b"\nC: "c"\n%ignore " "\n'
+    for lexer in ('basic', 'contextual'):
+        l = Lark(g, parser='lalr', lexer=lexer, lexer_callbacks={'B': lambda t: t.update(value='')})
+        for w, at in (('a b', 2), ('a\n b ', 3), ('ab', 1)):
+            out = call(ctx, 'parse', l.parse, w)
+            ctx.judged([g, lexer, w, 'empty-valued-last-token'], True, ['kind:$END-after-empty-valued-token'])
+            ctx.count('corpus:$END-after-empty-valued-token')
+            tok = out[1].get('token') if out[0] == 'exc' else None
+            if out[0] != 'exc' or out[1].get('token_type') != END or not isinstance(tok, list) or tok[3] != at:
+                ctx.violation('$END-does-not-carry-the-coordinates-of-the-last-token:lalr/%s' % lexer, {'grammar_text': g, 'input': w, 'callback': 'B -> value ""', 'kind': 'empty-valued'},
+                              {'expected_start_pos': at, 'lark': out})
+
+
 def run_batch(ctx):
     rng = ctx.rng
     quick = ctx.tier == 'quick'
+    if ctx.batch == 1:
+        end_after_empty_valued_token(ctx)
     if ctx.batch == 0:
         for name, G, inputs in CORPUS:
             run_grammar(ctx, G, 'corpus:' + name, [w.replace(' ', '') if not G['ignore'] else w for w in inputs])
@@ -462,6 +481,9 @@ def run_batch(ctx):
 
 
 def replay(ctx, case):
+    if case.get('kind') == 'empty-valued':
+        end_after_empty_valued_token(ctx)
+        return
     earlier = [w for s, w in case.get('earlier', []) if s == case.get('start', 'start')]
     run_grammar(ctx, case['grammar'], case.get('family', 'replay'), earlier + [case['input']], [tuple(case['engine'])])
 
